@@ -457,6 +457,7 @@ def exc_matches(exc, verdict):
 def judge(ck, prop, doc, metas, name):
     """validate a document, classify rejected records with the open deviations switched on, report; returns #accepted"""
     by = validate(ck, prop, doc, name)
+    ck.evaluations += len(doc["cases"])
     rejected = []
     nacc = 0
     for i, case in enumerate(doc["cases"]):
@@ -628,25 +629,30 @@ def run_traces(ck, prop, tier, sd):
             nl, _ = judge(ck, prop, ldoc, lmetas, "library")
             ck.extra["library_runs"]["accepted"] = nl
             ck.extra["library_runs"]["itp_compared"] = itp_agrees(ck, prop, ldoc, lmetas)
-    # binding demonstration: one corrupted record must be rejected
+    # binding demonstration: a corrupted record must be rejected
     good = [i for i, case in enumerate(doc["cases"]) if accepted(case, by.get(i + 1, []))[0]]
     if not good:
         if ck.violations:       # nothing was accepted because the code misbehaves on everything: the verdict is already "violation"
             ck.extra["binding_demo"] = "skipped: no record of this run was accepted"
             return
         raise c.MachineryError("no accepted record to demonstrate the binding with")
-    i = good[len(good) // 2]
-    bad = json.loads(json.dumps(doc["cases"][i]))
-    if prop == "C01":
-        bad["final"]["atoms"][-1]["cg"] += 1
-        field = "charge group of the last atom"
-    else:
-        bad["final"]["nrexcl"] += 1
-        field = "nrexcl of the molecule"
-    demo = validate(ck, prop, {"ffs": doc["ffs"], "cases": [bad]}, "binding_demo", count=False)
-    if accepted(bad, demo.get(1, []))[0]:
-        raise c.MachineryError("binding demonstration failed: a record with a corrupted %s was accepted" % field)
-    ck.extra["binding_demo"] = "record with corrupted %s rejected: %s" % (field, first_bad(demo.get(1, [])))
+    good.sort(key=lambda i: -len(doc["cases"][i]["final"]["atoms"]))
+    bads = []
+    for i in good[:4]:
+        bad = json.loads(json.dumps(doc["cases"][i]))
+        if prop == "C01":
+            bad["final"]["atoms"][-1]["cg"] += 1
+            field = "charge group of the last atom"
+        else:       # a larger written distance excludes more pairs unless the whole molecule is excluded already: try a few records
+            bad["final"]["nrexcl"] += 6
+            field = "nrexcl of the molecule (+6)"
+        bads.append(bad)
+    demo = validate(ck, prop, {"ffs": doc["ffs"], "cases": bads}, "binding_demo", count=False)
+    rejected = [j for j, bad in enumerate(bads) if not accepted(bad, demo.get(j + 1, []))[0]]
+    if (prop == "C01" and len(rejected) != len(bads)) or not rejected:
+        raise c.MachineryError("binding demonstration failed: records with a corrupted %s were accepted" % field)
+    ck.extra["binding_demo"] = "%d of %d records with a corrupted %s rejected, e.g. %s" % (
+        len(rejected), len(bads), field, first_bad(demo.get(rejected[0] + 1, [])))
 
 
 def replay_trace(ck, prop, case):
